@@ -9,14 +9,18 @@
                 (independent of the models);
     known 1   = only the ART engine violates, the keys involved are not
                 [radix_safe], and the ART model reproduces what was observed
-                (known finding C07-F11). *)
+                (known finding C07-F11);
+    known 2   = concurrent-insert stress case in which only the ART engine
+                violates (known finding C07-F31: concurrent ART inserts lose
+                entries). *)
 From NoKV Require Export Corr.RunSst Model.MemIndexSkl Model.MemIndexArt Spec.MemIndexSpec.
 Local Open Scope N_scope.
 
 (** observations on one engine *)
 Record eobs := { m_fwd : olist; m_rev : olist; m_res : list tres }.
 
-Record mcase := { mc_ops : list entry; mc_targets : list target; mc_skl : eobs; mc_art : eobs }.
+(** [mc_conc]: the entries were inserted by 8 goroutines (stress test; keys distinct) *)
+Record mcase := { mc_conc : bool; mc_ops : list entry; mc_targets : list target; mc_skl : eobs; mc_art : eobs }.
 
 Definition lim (l : list entry) : list entry := firstn seek_limit l.
 
@@ -54,8 +58,13 @@ Definition mcheck (c : mcase) : verdict :=
   let art_model := eobs_ok ops tgs (fun asc => art_iter asc ar) (art_search ar) (fun asc q => art_seek asc ar q) (mc_art c) in
   let skl_spec := eobs_spec_ok ops tgs (mc_skl c) in
   let art_spec := eobs_spec_ok ops tgs (mc_art c) in
-  let known := if skl_spec && negb art_spec && negb (radix_safe (all_keys ops tgs)) && art_model then 1 else 0 in
-  mk_verdict (negb (skl_model && art_model)) (negb (skl_spec && art_spec)) known.
+  let known :=
+    if mc_conc c then (if skl_spec && negb art_spec then 2 else 0)
+    else if skl_spec && negb art_spec && negb (radix_safe (all_keys ops tgs)) && art_model then 1 else 0 in
+  (* the models are sequential: after concurrent inserts the ART engine may have lost
+     entries (known finding 2), which is judged against the specification only *)
+  let art_mismatch := if mc_conc c then art_spec && negb art_model else negb art_model in
+  mk_verdict (negb skl_model || art_mismatch) (negb (skl_spec && art_spec)) known.
 
 (* names expected by the driver *)
 Definition case := mcase.
@@ -64,8 +73,8 @@ Definition check := mcheck.
 (* compact constructors; entries are printed with RunSst's [E], targets with [T (TB i v) 0] / [T (TX "base" v) 0],
    observed entries with [I n] (the n-th inserted entry) *)
 Definition Om (fwd rev : olist) (rs : list tres) : eobs := {| m_fwd := fwd; m_rev := rev; m_res := rs |}.
-Definition Cm (ops : list entry) (tgs : list target) (s a : eobs) : mcase :=
-  {| mc_ops := ops; mc_targets := tgs; mc_skl := s; mc_art := a |}.
+Definition Cm (conc : bool) (ops : list entry) (tgs : list target) (s a : eobs) : mcase :=
+  {| mc_conc := conc; mc_ops := ops; mc_targets := tgs; mc_skl := s; mc_art := a |}.
 (** an observed iteration given by indices into the inserted entries *)
 Definition Ix (ops : list entry) (ns : list N) : list entry :=
   flat_map (fun n => match nth_error ops (N.to_nat n) with Some e => [e] | None => [] end) ns.
